@@ -40,6 +40,7 @@ type gen struct {
 	post []Entry
 	cwd  Path
 	nh   int
+	hs   []HandleView
 }
 
 func (g *gen) pick(xs []string) string { return xs[g.r.Intn(len(xs))] }
@@ -227,6 +228,11 @@ func (g *gen) next() Call {
 	case "seek":
 		c.Wh = []int{0, 1, 2, 0, 1, 2, 7}[g.r.Intn(7)]
 		c.Off = g.r.Intn(10) - 3
+
+		if c.H >= 1 && c.H <= len(g.hs) && g.hs[c.H-1].K == "dir" {
+			// directory offsets are opaque cookies on Linux: only the rewind is part of the universe
+			c.Wh, c.Off = 0, 0
+		}
 	case "ftruncate":
 		c.N = g.r.Intn(8) - 1
 	case "freaddir", "freaddirnames":
@@ -310,7 +316,7 @@ func GenerateOn(f *Factory, seed int64, nplans int, o GenOpts, plans, trace io.W
 				return err
 			}
 
-			g.post, g.cwd, g.nh = ev.Post, ev.Cwd, len(s.Hs)
+			g.post, g.cwd, g.nh, g.hs = ev.Post, ev.Cwd, len(s.Hs), ev.Hs
 
 			if s.Dead {
 				break
